@@ -54,6 +54,9 @@ type ctx struct {
 	build, work string
 	engine      string
 	start       time.Time
+
+	regressTotal  int
+	regressFailed []string
 }
 
 func inconclusive(format string, a ...any) {
@@ -313,6 +316,16 @@ func (c *ctx) run() int {
 	if err != nil {
 		inconclusive("%v", err)
 	}
+	// replay tier: the saved minimal cases of earlier findings, without any generator
+	regress, _ := filepath.Glob(filepath.Join(c.root, "regress", c.id, "*.json"))
+	sort.Strings(regress)
+	c.regressTotal = len(regress)
+	for _, path := range regress {
+		if code, out := c.replayFile(bin, path, 5*time.Minute); code != 0 {
+			c.regressFailed = append(c.regressFailed, path)
+			fmt.Printf("--- %s: saved regression case fails again: %s\n%s\n", c.id, path, tail(out, 2000))
+		}
+	}
 	raceBin := ""
 	for _, s := range plan.Shards {
 		if s.Race && raceBin == "" {
@@ -552,6 +565,11 @@ func (c *ctx) merge(plan *ev.Plan, results []shardResult, crashes []crashRec, bi
 		fmt.Printf("--- %s: %s\n%s\ncase: %s\n", c.id, v.Sig, v.Msg, tail(string(v.Case), 3000))
 		exit = 1
 	}
+	for _, path := range c.regressFailed {
+		lines = append(lines, fmt.Sprintf("VIOLATION property=%s replay=%s", c.id, path))
+		nvio++
+		exit = 1
+	}
 	for sig, n := range excluded {
 		f := knownSig[sig]
 		fmt.Printf("KNOWN-FINDING: property=%s %s — %s (%d cases excluded by construction)\n", c.id, sig, f.What, n)
@@ -582,6 +600,7 @@ func (c *ctx) merge(plan *ev.Plan, results []shardResult, crashes []crashRec, bi
 		"shards_planned":      len(plan.Shards),
 		"shards_completed":    completed,
 		"blocked_by_crash":    blocked,
+		"regression_replays":  c.regressTotal,
 		"notes":               notes,
 	}
 	if plan.Exhaustive && incomplete <= 0 && exit == 0 {
